@@ -4,12 +4,15 @@
 (*                                                                         *)
 (* A state is one test vector: a base message Encode(rec, layout) of one   *)
 (* of the record families below, or one systematic mutation of a base      *)
-(* message.  TLC enumerates the vectors (Init: base vectors; Next: the     *)
-(* mutations of a base vector) and, per vector,                            *)
+(* message.  TLC enumerates the vectors (Init: one root state per record;  *)
+(* Layout: the base vectors of a record; Mutate: the mutations of a base   *)
+(* vector) and, per vector,                                                *)
 (*   - checks the codec on itself (RoundTrip: Decode(Encode(rec, lay))     *)
 (*     returns exactly rec, with verdict WF exactly when the record and    *)
 (*     the layout are inside the RFCs' rules; Total: Decode is defined on  *)
-(*     every mutated byte string; PresRoundTrip: Unescape(Pres(n)) = n),   *)
+(*     every mutated byte string; PresRoundTrip: Unescape(Pres(n)) = n;    *)
+(*     SizeLimit: 65535 octets is the largest message; FlagsSound: what    *)
+(*     the six parse-flag bits mean, for all 64 combinations),             *)
 (*   - prints (EmitVec) the bytes, the reference verdict and decoded       *)
 (*     record for every requested parse-flag value, the reference name     *)
 (*     decoding at the marked name offsets, and for base vectors the       *)
@@ -499,9 +502,21 @@ BaseVec(f, i, l) ==
   IN  [fam |-> f, idx |-> i, lid |-> l, mut |-> NoMut, bytes |-> st.out,
        encok |-> st.ok /\ RecEncodable(rec) /\ Len(st.out) <= 65535]
 
-Init == \E f \in Fams : \E i \in 1..Len(FamRecs(f)) : \E l \in LayIds(f) : v = BaseVec(f, i, l)
+(* The initial states are "root" states, one per abstract record, that    *)
+(* carry no bytes: TLC evaluates initial states and their invariants on    *)
+(* one thread, successor states on all workers, so the encodings, the      *)
+(* self-checks and the printing of the base vectors happen in Next.        *)
+(* Root states are not vectors (EmitVec prints a marker for them).         *)
+Root(f, i) == [fam |-> f, idx |-> i, lid |-> 0, mut |-> [k |-> "root", pos |-> 0, val |-> 0],
+               bytes |-> <<>>, encok |-> FALSE]
 
-Next ==
+Init == \E f \in Fams : \E i \in 1..Len(FamRecs(f)) : v = Root(f, i)
+
+Layout ==            \* a record in one of its layouts: a base vector
+  /\ v.mut.k = "root"
+  /\ \E l \in LayIds(v.fam) : v' = BaseVec(v.fam, v.idx, l)
+
+Mutate ==            \* one systematic mutation of a base vector
   /\ v.mut.k = "none"
   /\ v.lid \in MutLayIds(v.fam)
   /\ v.encok
@@ -509,6 +524,8 @@ Next ==
          st  == EncodeSt(rec, Lays(rec)[v.lid])
      IN  \E m \in Muts(st.out, st.marks) :
             v' = [v EXCEPT !.mut = m, !.bytes = ApplyMut(st.out, m)]
+
+Next == Layout \/ Mutate
 
 Spec == Init /\ [][Next]_v
 
@@ -650,6 +667,7 @@ SetToSeq(S) == LET RECURSIVE F(_) F(T) == IF T = {} THEN <<>> ELSE LET x == SetM
 
 EmitVec ==
   Emit =>
+    IF v.mut.k = "root" THEN PrintT(ToJson([root |-> 1])) ELSE
     PrintT(ToJson(
       [fam |-> v.fam, idx |-> v.idx, lid |-> v.lid, mut |-> v.mut, nb |-> v.bytes,
        encok |-> v.encok,
